@@ -39,3 +39,101 @@ Fixpoint sc_run (cancels : bool) (c : sc_conn) (es : list sc_ev) : list bool * s
 Definition sc_case (cancels : bool) (cap k n : nat) : list bool * list bool :=
   let r := fst (sc_run cancels (mkSc cap 0) (repeat ScGood 2 ++ repeat ScAbandon k ++ repeat ScGood n)) in
   (firstn k (skipn 2 r), skipn (2 + k) r).
+
+(* =====================================================================================================================
+   Round 6 — the release of the stream credit as an explicit step on EVERY exit of exchangeStream.
+
+   A bidirectional stream counts against the peer's limit until BOTH directions are finished.  The client's send side
+   is always finished by exchangeStream (stream.Close() = FIN after the query; CancelWrite on the ctx / write-error
+   paths).  The direction server -> client is finished when
+     - the server finishes it by itself: FIN (with the reply or later) or RESET_STREAM, or
+     - the client aborts its receive side: stream.CancelRead = STOP_SENDING, which the server's QUIC stack answers with
+       RESET_STREAM - whatever the server application does.
+   exchangeStream has three exits, and the code calls CancelRead on each of them:
+       reply read   : worker goroutine, after ReadMsgFromTCP returned a message
+       read error   : worker goroutine, after ReadMsgFromTCP failed (reset, short / undecodable frame)
+       ctx done     : the caller's select arm (the worker is still inside the read)
+   [sc_policy] says on which exits the receive side is aborted; the code is [sc_code].
+
+   What the server does with ITS side of a stream:  *)
+Inductive sc_srv :=
+| SvFin          (* complete reply, FIN with it *)
+| SvNoFin        (* complete reply, the send side is left open for ever *)
+| SvLateFin      (* complete reply, FIN some time later (after the exchanges that follow immediately) *)
+| SvResetAfter   (* complete reply, RESET_STREAM some time later *)
+| SvResetNow     (* RESET_STREAM instead of a reply: read error *)
+| SvShort        (* a frame that ends early, then FIN: read error *)
+| SvLie          (* lying length prefix, stream left open: the exchange ends at its deadline *)
+| SvSilent.      (* nothing at all: the exchange ends at its deadline *)
+
+Inductive sc_exit := ScxReply | ScxReadErr | ScxCtx.
+
+Definition sc_exit_of (v : sc_srv) : sc_exit :=
+  match v with
+  | SvFin | SvNoFin | SvLateFin | SvResetAfter => ScxReply
+  | SvResetNow | SvShort => ScxReadErr
+  | SvLie | SvSilent => ScxCtx
+  end.
+
+(* when does the server finish its side without being asked? *)
+Inductive sc_when := WNow | WLater | WNever.
+Definition sc_server_finishes (v : sc_srv) : sc_when :=
+  match v with
+  | SvFin | SvResetNow | SvShort => WNow
+  | SvLateFin | SvResetAfter => WLater
+  | SvNoFin | SvLie | SvSilent => WNever
+  end.
+
+Record sc_policy := mkPol { pol_reply : bool; pol_err : bool; pol_ctx : bool }.
+Definition sc_code : sc_policy := mkPol true true true.
+Definition sc_only_on_error : sc_policy := mkPol false true true.     (* CancelRead only when the read failed *)
+Definition sc_not_on_ctx : sc_policy := mkPol true true false.         (* the ctx arm leaves the read side alone *)
+
+Definition sc_cancels (p : sc_policy) (x : sc_exit) : bool :=
+  match x with ScxReply => pol_reply p | ScxReadErr => pol_err p | ScxCtx => pol_ctx p end.
+
+(* the peer's account: streams it counts for ever / until some time has passed *)
+Record sc_acct := mkAcct { sa_cap : nat; sa_stuck : nat; sa_pending : nat }.
+
+Definition sc_used (a : sc_acct) : nat := sa_stuck a + sa_pending a.
+
+(* THE RELEASE STEP: what the exit of one exchange leaves in the peer's account *)
+Definition sc_release (p : sc_policy) (v : sc_srv) (a : sc_acct) : sc_acct :=
+  if sc_cancels p (sc_exit_of v) then a                 (* STOP_SENDING: the server's stack resets, the credit returns *)
+  else match sc_server_finishes v with
+       | WNow => a
+       | WLater => mkAcct (sa_cap a) (sa_stuck a) (S (sa_pending a))
+       | WNever => mkAcct (sa_cap a) (S (sa_stuck a)) (sa_pending a)
+       end.
+
+Inductive sc_step2 :=
+| Sx (v : sc_srv)    (* one exchange against a server behaving v *)
+| SQuiet.            (* time passes: late FINs / resets arrive *)
+
+(* one exchange: OpenStream fails when the peer's limit is used up (and the live connection is not replaced: all
+   attempts of exchangePayload meet it); otherwise the outcome is the exit, then the release step *)
+Definition sc_do (p : sc_policy) (a : sc_acct) (s : sc_step2) : option bool * sc_acct :=
+  match s with
+  | SQuiet => (None, mkAcct (sa_cap a) (sa_stuck a) 0)
+  | Sx v =>
+      if sc_used a <? sa_cap a
+      then (Some (match sc_exit_of v with ScxReply => true | _ => false end), sc_release p v a)
+      else (Some false, a)
+  end.
+
+Fixpoint sc_run2 (p : sc_policy) (a : sc_acct) (ss : list sc_step2) : list (option bool) * sc_acct :=
+  match ss with
+  | [] => ([], a)
+  | s :: r => let x := sc_do p a s in
+              let y := sc_run2 p (snd x) r in (fst x :: fst y, snd y)
+  end.
+
+(* the harness scenario (kind "streams"): 2 answered, k abandoned, a pause, n answered, a pause; the outcomes of the
+   exchanges and the streams the server still counts at the end *)
+Definition sc_case2 (p : sc_policy) (cap : nat) (answered abandoned : sc_srv) (k n : nat)
+  : list bool * list bool * nat :=
+  let steps := repeat (Sx answered) 2 ++ repeat (Sx abandoned) k ++ (match k with 0 => [] | _ => [SQuiet] end) ++
+               repeat (Sx answered) n ++ [SQuiet] in
+  let r := sc_run2 p (mkAcct cap 0 0) steps in
+  let outs := flat_map (fun o => match o with Some b => [b] | None => [] end) (fst r) in
+  (firstn k (skipn 2 outs), skipn (2 + k) outs, sc_used (snd r)).
